@@ -88,7 +88,13 @@ pub fn std_sweep(tier: Tier, flavor: Flavor) -> Vec<Part> {
     parts.push(Part {
         name: "ES-I multi-run inputs",
         family: gen::es_i(tier.pick(14, 24), tier.pick(5, 7)),
-        cfgs: gen::cfgs(&[ALL_MODES, NO_ASCII], &[d, a], &on, &off),
+        cfgs: if flavor == Flavor::AllModeSets {
+            let mut m: Vec<u8> = (1..64u8).filter(|m| m & 1 == 0).collect();
+            m.push(ALL_MODES);
+            gen::cfgs(&m, &[d], &on, &off)
+        } else {
+            gen::cfgs(&[ALL_MODES, NO_ASCII], &[d, a], &on, &off)
+        },
     });
     // ES-E
     let mut ce = gen::cfgs(&[ALL_MODES], &[d, a], &on, &off);
@@ -104,9 +110,6 @@ pub fn std_sweep(tier: Tier, flavor: Flavor) -> Vec<Part> {
     // capacity boundaries
     for si in 0..48 {
         let c = crate::refmodel::symbols::SYMBOLS[si].data;
-        if c > 204 && tier == Tier::Quick && !matches!(c, 1558 | 1304 | 280) {
-            continue;
-        }
         let single = ListMask::single(si);
         let pair = ListMask::of(&[gen::idx(10, 10), si]);
         parts.push(Part { name: "ES-K capacity boundaries of a single symbol", family: gen::es_k(c), cfgs: gen::cfgs(&[ALL_MODES], &[single, pair], &on, &off) });
